@@ -417,7 +417,7 @@ def run_async(inp):
 
 # ---------------------------------------------------------------- two threads on one blocking TCP client
 
-WATCHDOG = 20.0
+WATCHDOG = 180.0   # only ever reached on a genuine deadlock: every wait is on an explicit condition
 
 
 class HarnessTimeout(RuntimeError):
